@@ -45,6 +45,8 @@ func main() {
 		seed, _ := strconv.ParseInt(a[2], 10, 64)
 		budget, _ := strconv.ParseFloat(a[4], 64)
 		os.Exit(core.OneMain(a[0], core.Tier(a[1]), seed, atoi(a[3]), budget, os.Getenv("VERIF_ONE_OUT") == ""))
+	case "aux":
+		os.Exit(core.AuxMain(os.Args[2], os.Args[3:]))
 	case "replay":
 		os.Exit(core.ReplayMain(os.Args[2]))
 	default:
